@@ -26,6 +26,7 @@ class ParseRoles:
         self.reach = prog.reach([self.entry.id]) if self.entry else set()
         # TOKEN-NEXT: (&mut Tokenizer) -> Result<Token, Error>
         self.token_next = None
+        tn_cands = []
         self.expect = None
         self.token_adt = None
         for b in prog.bodies:
@@ -37,10 +38,18 @@ class ParseRoles:
                 m = re.match(r'^std::result::Result<([\w:]+)(<.*>)?, error::Error>$', ret)
                 if m and f.adt_by_name.get(m.group(1)) and any(c.callee == 'std::iter::Iterator::next' or True for c in b.live_calls):
                     if self._reaches_char_next(b):
-                        self.token_next = b
+                        tn_cands.append(b)
                         self.token_adt = m.group(1)
             if len(tys) == 2 and tys[0].startswith('&mut ' + self.tok_name) and tys[1] in ('&str', "&'a str") and ret == 'std::result::Result<(), error::Error>':
                 self.expect = b
+        # several bodies may have the shape (`next` = bookkeeping + a private `scan_token`): the role is the outermost
+        # one (not called by another candidate), preferring a public one
+        if tn_cands:
+            ids = {b.id for b in tn_cands}
+            roots = [b for b in tn_cands if not (prog.callers.get(b.id, set()) & (ids - {b.id}))]
+            roots = roots or tn_cands
+            pubs = [b for b in roots if b.is_pub]
+            self.token_next = (pubs or roots)[0]
         # families: wrappers that just forward to the role
         self.next_family = self._family(self.token_next, want_args=0)
         self.expect_family = self._family(self.expect, want_args=1)
@@ -114,7 +123,27 @@ class ParseRoles:
         out = [self.prog.by_id[i] for i in sorted(self.reach)]
         if not views:
             return out
-        vs = [self.prog.view(b, keep=lambda g: True, tag='comb') for b in out]
+        if views == 'ho':
+            # also open private *higher-order* helpers (`scan_while(|t, ch| ..)`, `take_run(start, pred)`): what
+            # they do depends on the closure / fn they are handed, so they are read at their call sites
+            def keep(g):
+                if g.is_pub:
+                    return True
+                for k in range(1, g.arg_count + 1):
+                    ty = g.locals[k]['ty']
+                    if re.match(r'^(for<[^>]*> )?(unsafe )?fn\(', ty) or re.match(r'^(&(mut )?)?[A-Z]\w{0,3}$', ty) or 'closure@' in ty or 'Fn(' in ty:
+                        return False
+                # private *value* helpers of the scanner (`span_from(&self, start)`, `text_from(&self, start)`): they
+                # cannot advance (shared receiver) and only package positions / slices; the position reads themselves
+                # (usize) and look-aheads stay calls, because the rules recognise those by role
+                if g.arg_count >= 1 and self.tok_name and g.locals[1]['ty'].startswith('&' + self.tok_name) and not g.is_closure:
+                    ret = g.locals[0]['ty']
+                    if ret not in ('usize', 'bool', 'char') and not ret.startswith('std::option::Option<(usize, char)') and 'Result<' not in ret:
+                        return False
+                return True
+            vs = [self.prog.view(b, keep=keep, tag='comb-ho') for b in out]
+        else:
+            vs = [self.prog.view(b, keep=lambda g: True, tag='comb') for b in out]
         swallowed = set()
         for v in vs:
             swallowed |= set(v.j.get('inlined') or []) if getattr(v, 'is_view', False) else set()
